@@ -130,6 +130,10 @@ func (c17) Gen(r *sim.RNG, tier string, idx int) *Scenario {
 		}
 		sc.Tasks = append(sc.Tasks, ops)
 	}
+	if r.Bool(0.2) && sc.Mix != "shared-readonly-doc" {
+		// a document that cannot be had (permanently): tasks and references fail alike
+		sc.Faults = DrawFaults(w, r, 1, []string{sim.FRefuse, sim.FTorn, sim.FIllTyped}, nil, false)
+	}
 	s := &sim.SchedCfg{Seed: r.Uint64(), MaxDecisions: 20000}
 	if r.Bool(0.6) {
 		s.Mode = "random"
@@ -236,6 +240,9 @@ var cacheModel = porcupine.Model{
 }
 
 type taskResult struct {
+	Steps  int64
+	Reqs   int
+	Faults map[string]int
 	Digest string
 	Err    string
 	Raw    string
@@ -244,7 +251,12 @@ type taskResult struct {
 }
 
 func digestOf(res *OpResult, withRequests bool) taskResult {
-	tr := taskResult{Err: res.ErrText, Raw: string(res.Raw), Panic: res.Out.Panic, Dead: res.Out.Deadlock}
+	tr := taskResult{Err: res.ErrText, Raw: string(res.Raw), Panic: res.Out.Panic, Dead: res.Out.Deadlock, Steps: res.Out.Steps, Reqs: len(res.Log.Reqs), Faults: map[string]int{}}
+	for _, q := range res.Log.Reqs {
+		if q.Fault != "" {
+			tr.Faults[q.Fault]++
+		}
+	}
 	tr.Digest = res.ErrText + "|" + string(res.Raw) + "|" + res.Out.Panic
 	if withRequests {
 		tr.Digest += "|" + strings.Join(res.Log.URLs(), ",")
@@ -262,7 +274,7 @@ func (c17) Run(sc *Scenario) *Verdict {
 	if b, _ := json.Marshal(w.Docs); strings.Contains(string(b), "json-schema.org/draft-04") || strings.Contains(string(b), "swagger.io/v2") {
 		v.probe("ref-to-built-in-meta-schema")
 	}
-	store := sim.NewStore(w.Docs, nil)
+	store := sim.NewStore(w.Docs, sc.Faults) // permanent faults: the same for tasks and sequential references
 	key := sc.OrderKeys[0]
 	sharedDoc, _ := DecodeRoot(w)
 	withReq := sc.Mix == "distinct-roots" || sc.Mix == "own-cache" || sc.Mix == "first-use"
@@ -394,6 +406,18 @@ func (c17) Run(sc *Scenario) *Verdict {
 	if sr.Exhausted {
 		v.Inconclusive = "hand-off bound exhausted while tasks were still progressing"
 		return v
+	}
+	for t := range sc.Tasks {
+		for i := range results[t] {
+			v.Steps += results[t][i].Steps
+			v.Requests += results[t][i].Reqs
+			for k, n := range results[t][i].Faults {
+				if v.Faults == nil {
+					v.Faults = map[string]int{}
+				}
+				v.Faults[k] += n
+			}
+		}
 	}
 	for t := range sc.Tasks {
 		if sr.Outcomes[t].Budget {
